@@ -26,7 +26,9 @@ Layers, bottom up:
 * **scope buffering** (`Metric`, `localStep`): counters accumulate a pending delta delivered by a
   report pass, gauges remember the last value and an `updated` flag, timers report immediately,
   histograms count per tally bucket (C03 placement) and a pass observes the bucket's upper bound
-  `pending` times.
+  `pending` times.  The vectors handed out by `RegisterCounter` / `RegisterGauge` / `RegisterTimer`
+  are used by the caller directly (`rawCounter`, `rawGauge`, `timer`): every `Add` / `Set` /
+  `Observe` reaches the series at once and a report pass has nothing to deliver.
 
 Tags are association lists sorted by key with distinct keys (obligation of the caller; the driver
 rejects anything else), so `(name, tags)` is the canonical identity of a series.
@@ -251,7 +253,7 @@ def finishAlloc (cfg : Cfg) (p : Reporter × VecResult) (tags : Tags) : Reporter
   | (r, .vec none) => (r, .nilDeref)
   | (r, .vec (some f)) => (withSeries r f tags, .usable ⟨f.name, tags⟩)
 
-/-- the caller of `RegisterTimer`: an error comes back to the caller, a non-nil vector is used
+/-- the caller of `RegisterTimer` / `RegisterCounter` / `RegisterGauge`: an error comes back to the caller, a non-nil vector is used
 with `With(tags)`, a nil vector with a nil error is a nil dereference waiting to happen -/
 def finishRegister (p : Reporter × VecResult) (tags : Tags) : Reporter × Outcome :=
   match p with
@@ -298,6 +300,10 @@ inductive UseKind
   /-- `RegisterTimer` with an explicit flavour, then `With(tags)` by the caller -/
   | timerAs (hist : Bool)
   | histogram (spec : HSpec)
+  /-- `RegisterCounter`, then `With(tags)` by the caller, who `Add`s to the Prometheus counter directly -/
+  | counterAs
+  /-- `RegisterGauge`, then `With(tags)` by the caller, who `Set`s the Prometheus gauge directly -/
+  | gaugeAs
   deriving DecidableEq, Repr
 
 def keysOf (tags : Tags) : List Bytes := tags.map (·.1)
@@ -313,6 +319,8 @@ def useMetric (cfg : Cfg) (r : Reporter) (kind : UseKind) (name : Bytes) (tags :
   | .timerAs true => finishRegister (histogramVec cfg.variant r name (keysOf tags) cfg.defaultBounds) tags
   | .timerAs false => finishRegister (summaryVec cfg.variant r name (keysOf tags)) tags
   | .histogram spec => finishAlloc cfg (histogramVec cfg.variant r name (keysOf tags) spec.promBounds) tags
+  | .counterAs => finishRegister (counterVec r name (keysOf tags)) tags
+  | .gaugeAs => finishRegister (gaugeVec r name (keysOf tags)) tags
 
 /-! ## a tally scope's metric objects -/
 
@@ -326,6 +334,10 @@ inductive Metric
   | gauge (h : Handle) (curr : F64) (updated : Bool)
   | timer (h : Handle)
   | histogram (h : Handle) (spec : HSpec) (pending : List Nat)
+  /-- the Prometheus counter handed out by `RegisterCounter(…).With(tags)`: no tally-side buffering -/
+  | rawCounter (h : Handle)
+  /-- the Prometheus gauge handed out by `RegisterGauge(…).With(tags)`: no tally-side buffering -/
+  | rawGauge (h : Handle)
   /-- the first use panicked or returned an error: the caller holds nothing -/
   | dead
   deriving DecidableEq, Repr
@@ -335,6 +347,8 @@ def Metric.handle : Metric → Handle
   | .gauge h _ _ => h
   | .timer h => h
   | .histogram h _ _ => h
+  | .rawCounter h => h
+  | .rawGauge h => h
   | .dead => .noop
 
 /-- events on one metric object -/
@@ -365,6 +379,8 @@ def localStep (m : Metric) (v : Val) (e : LEv) : Metric × Val :=
     | some idx => (.histogram h spec (bump pend idx), v)
     | none => (m, v)
   | .histogram h spec pend, .pass => (.histogram h spec (pend.map fun _ => 0), flushBuckets v spec.obs pend)
+  | .rawCounter _, .inc n => (m, v.add n)
+  | .rawGauge _, .update b => (m, v.set b)
   | m, _ => (m, v)
 
 def newMetric (kind : UseKind) (h : Handle) : Metric :=
@@ -374,6 +390,8 @@ def newMetric (kind : UseKind) (h : Handle) : Metric :=
   | .timer => .timer h
   | .timerAs _ => .timer h
   | .histogram spec => .histogram h spec (spec.obs.map fun _ => 0)
+  | .counterAs => .rawCounter h
+  | .gaugeAs => .rawGauge h
 
 /-- what is recorded about every first use -/
 structure UseObs where
